@@ -144,7 +144,7 @@ SUBCHECKS = [
     SubCheck("repair_contract", evaluate, strategy=cases, examples=(6000, 60000), shards=(16, 16),
              floors={"clean_wrong_check": 100, "fallback_with_check": 100, "multi_candidates": 200,
                      "candidates_of_different_length": 60, "multi_site_product": 60, "walk": 800, "k=8": 40,
-                     "check:empty": 200, "second_call_longer_check": 200, "heap=inf": 100}, rule=RULE),
+                     "check:empty": 200, "second_call_longer_check": 200, "heap=inf": 100}, rule=RULE, timeout=300.0),
     SubCheck("fuzz_repair_contract", evaluate, fuzz=("C09", (4000, 250000)), shards=(2, 8),
              rule="atheris/libFuzzer campaign: bytes are decoded into (graph from a pool of 64 arc subsets, start "
                   "vertex, string, options) and judged by the same oracle as the Hypothesis sub-check; coverage "
